@@ -5630,8 +5630,10 @@ class Parser:
         self.NO_PAREN_FUNCTION_PARSERS["PRIOR"] = lambda self: self.expression(
             exp.Prior(this=self._parse_bitwise())
         )
-        connect = self._parse_disjunction()
-        self.NO_PAREN_FUNCTION_PARSERS.pop("PRIOR")
+        try:
+            connect = self._parse_disjunction()
+        finally:
+            self.NO_PAREN_FUNCTION_PARSERS.pop("PRIOR", None)
         return connect
 
     def _parse_connect(self, skip_start_token: bool = False) -> exp.Connect | None:
